@@ -1184,9 +1184,18 @@ def check_blt(prop, tier):
         meta[rid] = (text, real, ctor_exc)
     outcomes = collections.Counter(m[1]['out'] for m in meta.values())
     binds = collections.Counter()
-    for lo in range(0, len(recs), 1500):
-        chunk = recs[lo:lo + 1500]
-        out, res = vlib.judge_blt(chunk, fixed, workers=16)
+    # chunks bounded by their total number of words (every TLC worker holds the deserialized chunk)
+    chunks, cur, cw = [], [], 0
+    for r in recs:
+        if cur and (cw + len(r['words']) > 25000 or len(cur) >= 1500):
+            chunks.append(cur)
+            cur, cw = [], 0
+        cur.append(r)
+        cw += len(r['words'])
+    if cur:
+        chunks.append(cur)
+    for chunk in chunks:
+        out, res = vlib.judge_blt(chunk, fixed, workers=16, heap_mb=6144)
         R.add_tlc(res)
         R.cov['traces_validated_against_impl'] += len(chunk)
         for i, names in out.items():
